@@ -1,4 +1,5 @@
 """C02 - turmoil::net TCP delivers an intact, ordered byte stream and then EOF."""
+import json
 import fam_stream as F
 from pipeline import PropSpec
 
@@ -237,6 +238,7 @@ def c02_oracle(case, obs):
     out.extend(graceful_drop_rule(case, obs))
     out.extend(no_abort_no_reset_rule(case, obs))
     out.extend(blocked_writer_rule(case, obs))
+    out.extend(stranded_rule(case, obs))
     return out
 
 
@@ -268,6 +270,42 @@ def no_abort_no_reset_rule(case, obs):
                     return out
                 if nm in ("shutdown", "drop_w") and r in (["ok"], "none"):
                     shut.add(cmd[1])
+    return out
+
+
+def stranded_rule(case, obs):
+    """After the last link call of the script was a `release` (which also heals every explicit partition of the
+    link), the link is healthy: whatever sits on it must be delivered.  A segment that is still on the link four
+    steps later (same head message in every snapshot, nothing else touching the link) is stranded: the byte stream
+    behind it - data, FIN or RST - can never arrive (seed C02-A8)."""
+    out = []
+    cfg = case["cfg"]
+    if cfg["mode"] != "remote":
+        return out
+    last, kind = None, None
+    for k, st in enumerate(case["steps"]):
+        for a in st["ctl"]:
+            if a[0] in ("hold", "release", "partition", "partition_oneway", "repair", "repair_oneway", "deliver"):
+                last, kind = k, a[0]
+        for h, cmds in st.get("hosts", {}).items():
+            if any(c[0] == "link" for c in cmds):
+                return out
+    if kind != "release" or last is None:
+        return out
+    post = obs["post"]
+    if len(post) < last + 6:
+        return out
+    heads = []
+    for k in range(last + 1, last + 6):
+        links = post[k][0]
+        hs = [(a, b, json.dumps(msgs[0])) for (a, b, msgs) in links if msgs]
+        heads.append(set(hs))
+    stuck = set.intersection(*heads) if heads else set()
+    for (a, b, m) in sorted(stuck):
+        out.append(("the link %s-%s was released at step %d (nothing held or partitioned afterwards) but the segment %s is still "
+                    "on it at step %d: it is stranded on a healthy link, so the bytes / end-of-file / reset behind it never arrive"
+                    % (a, b, last, m, last + 5), None))
+        break
     return out
 
 
